@@ -136,9 +136,53 @@ def library_built_pdus(part: Part) -> None:
             part.viol("harness:library-pdus-incomplete", f"{kinds}", {"library": True})
 
 
+def through_cemi(part: Part) -> None:
+    """Every constructible PDU x admissible destination inside a cEMI L_Data frame built by the library's serialiser: the
+    control octet carries the PDU's transport bits and the frame parses back to the same PDU - for every ORDERED PAIR of
+    PDUs serialised one after the other with the same application payload (a serialiser that keeps state between frames,
+    or drops the bits of one PDU kind, shows here)."""
+    from xknx.cemi import CEMIFrame, CEMILData, CEMIMessageCode
+    from xknx.dpt import DPTBinary
+    from xknx.telegram import GroupAddress, IndividualAddress, Telegram, apci
+
+    dst = {"group": GroupAddress("1/2/3"), "broadcast": GroupAddress(0), "individual": IndividualAddress("1.1.5")}
+    payloads = {"group": [lambda: apci.GroupValueRead(), lambda: apci.GroupValueWrite(DPTBinary(1))], "broadcast": [lambda: apci.IndividualAddressRead()],
+                "individual": [lambda: apci.DeviceDescriptorRead(descriptor=0), lambda: apci.MemoryRead(address=0x10, count=1)]}
+    cases = [(p, d) for p, ds in pdus() for d in ds if 0 <= p.sequence_number <= 15]
+
+    def one(pdu: Any, dest: str, mk: Any) -> tuple[bytes, Any]:
+        payload = mk() if isinstance(pdu, T.TDataGroup | T.TDataBroadcast | T.TDataTagGroup | T.TDataIndividual | T.TDataConnected) else None
+        tg = Telegram(destination_address=dst[dest], tpci=pdu, payload=payload)
+        raw = CEMIFrame(code=CEMIMessageCode.L_DATA_REQ, data=CEMILData.init_from_telegram(tg, src_addr=IndividualAddress("1.1.250"))).to_knx()
+        return raw, CEMIFrame.from_knx(raw).data.tpci  # type: ignore[union-attr]
+
+    for (p1, d1) in cases:
+        for (p2, d2) in cases:
+            if d1 != d2:
+                continue
+            for k, mk in enumerate(payloads[d2]):
+                part.evaluations += 1
+                part.nontrivial += 1
+                name = type(p2).__name__
+                case = {"cemi": [type(p1).__name__, p1.sequence_number, name, p2.sequence_number, d2, k]}
+                try:
+                    one(p1, d1, mk)
+                    raw, back = one(p2, d2, mk)
+                except Exception as exc:  # noqa: BLE001
+                    part.viol(exc_sig(f"cemi-serialiser-refuses:{name}", exc), f"{p1!r} then {p2!r} ({d2}): {exc!r}", case)
+                    continue
+                octet = raw[9]  # message code, add.info length (0), ctrl1, ctrl2, src(2), dst(2), length, then the TPCI/APCI octet
+                mask = 0xFF if octet & 0x80 else 0xFC
+                if octet & mask != p2.to_knx():
+                    part.viol(f"cemi-control-octet-differs:{name}", f"{p1!r} then {p2!r} ({d2}): frame {raw.hex()} carries transport bits {octet & mask:#04x}, the PDU encodes to {p2.to_knx():#04x}", case)
+                elif type(back) is not type(p2) or back.sequence_number != p2.sequence_number:
+                    part.viol(f"cemi-round-trip-changes:{name}", f"{p1!r} then {p2!r} ({d2}) -> {raw.hex()} -> {back!r}", case)
+
+
 def run(ctx: Ctx) -> None:
     part = Part()
     library_built_pdus(part)
+    through_cemi(part)
     for dest in DESTS:
         for octet in range(256):
             part.evaluations += 1
@@ -162,11 +206,15 @@ def run(ctx: Ctx) -> None:
     part.sample({"pdu": "TAck", "seq": 15, "dest": "individual"})
     ctx.merge(part)
     ctx.rule = ("complete: all 256 octets x {individual, group, broadcast} through TPCI.resolve against the TPDU table of Transport Layer 2 (written in the harness), "
-                "re-encoding compared on the transport bits (0xFC data / 0xFF control); every constructible PDU x sequence 0..15 x admissible destination encode->resolve; numbered PDUs with sequence numbers -1, 16, 17, 31, 64, 255, 256 must be refused by the encoder or survive the round trip; the PDUs the library builds itself on a management connection (connect, 40 numbered requests, 40 T_ACKs, disconnect) serialise and parse back equal. "
+                "re-encoding compared on the transport bits (0xFC data / 0xFF control); every constructible PDU x sequence 0..15 x admissible destination encode->resolve; numbered PDUs with sequence numbers -1, 16, 17, 31, 64, 255, 256 must be refused by the encoder or survive the round trip; the PDUs the library builds itself on a management connection (connect, 40 numbered requests, 40 T_ACKs, disconnect) serialise and parse back equal; every ordered pair of constructible PDUs (same destination kind, 1-2 application payloads) serialised one after the other through CEMILData.to_knx: control octet = the PDU's transport bits, frame parses back to the PDU. "
                 "non-trivial = octets that were not rejected + all PDU cases")
 
 
 def replay(case: Any) -> list[tuple[str, str]]:
+    if case and case.get("cemi"):
+        p = Part()
+        through_cemi(p)
+        return [(sg, v[1]) for sg, v in p.viols.items()]
     if case and case.get("library"):
         p = Part()
         library_built_pdus(p)
